@@ -8,6 +8,8 @@ SD=$(readlink -f "$1"); NAME=$2; shift 2
 W=/tmp/ev/$NAME; rm -rf $W; mkdir -p $W/clean $W/mut
 git -C /repo archive HEAD | tar -x -C $W/clean
 git -C /repo archive HEAD | tar -x -C $W/mut
+# generated headers (gitignored in /repo, produced by cmake's configure step)
+for d in clean mut; do for h in config.h rtrlib.h; do [ -f $W/$d/rtrlib/$h ] || cp /repo/rtrlib/$h $W/$d/rtrlib/$h; done; done
 R=$W/result.txt; : > $R
 ( cd $W/mut && git init -q . && git apply $SD/patch.diff ) >>$W/log 2>&1 && echo "patch_applies=yes" >>$R || { echo "patch_applies=NO" >>$R; cat $R; exit 1; }
 ( cd $W && timeout 600 bash $SD/demo.sh $W/clean >$W/demo_clean.log 2>&1 ); echo "demo_clean_rc=$?" >>$R
